@@ -4,6 +4,7 @@ mod chainsim;
 mod checks;
 mod crashsim;
 mod node;
+mod pibdsim;
 mod poolsim;
 mod refmodel;
 mod rng;
@@ -101,6 +102,7 @@ fn main() {
 				Some("crashsim") => crashsim::replay(rp),
 				Some("txhsim") => txhsim::replay(rp),
 				Some("poolsim") => poolsim::replay(rp),
+				Some("pibdsim") => pibdsim::replay(rp),
 				Some("wiresim") => {
 					if rp["property"].as_str() == Some("C11") {
 						wiresim::replay_c11(rp)
